@@ -46,7 +46,7 @@ def _fresh(inputs):
 
 # ------------------------------------------------------------------------------------------------ named sets
 THETAS = {"quick": ([9, 10], [19, 20], [21, 20], [11, 10], [4, 3], [2, 1]),
-          "thorough": ([1, 2], [4, 5], [9, 10], [19, 20], [1, 1], [21, 20], [11, 10], [5, 4], [4, 3], [3, 2], [2, 1])}
+          "thorough": ([1, 2], [3, 5], [7, 10], [4, 5], [9, 10], [19, 20], [1, 1], [21, 20], [11, 10], [5, 4], [4, 3], [3, 2], [2, 1])}
 
 
 def theta_of(frac) -> float:
@@ -103,7 +103,7 @@ def named_cases(tier):
         yield {"kind": "named", "named": "trine", "d": 2, "drop": k}
     for n in ((1, 2) if tier == "quick" else (1, 2, 3)):
         for th in THETAS[tier]:
-            if n == 3 and th not in ([9, 10], [11, 10], [5, 4], [3, 2], [2, 1]):
+            if n == 3 and th not in ([1, 2], [3, 5], [7, 10], [9, 10], [11, 10], [3, 2], [2, 1]):
                 continue
             yield {"kind": "named", "named": "pbr", "n": n, "theta": th, "d": 2 ** n}
 
